@@ -478,6 +478,30 @@ fn run(name: &str, a: &[i128]) -> String {
                 Err(e) => format!("1 {}", e.kind() as u8),
             }
         }
+        "instant_until" | "plain_time_until" => {
+            // instant_until: a b has_largest largest since;  plain_time_until: 6 fields a, 6 fields b, has_largest largest since
+            use temporal_rs::options::{DifferenceSettings, Unit};
+            let k = if name == "instant_until" { 2 } else { 12 };
+            let mut st = DifferenceSettings::default();
+            if a[k] != 0 {
+                st.largest_unit = Some(match a[k + 1] { 1 => Unit::Nanosecond, 2 => Unit::Microsecond, 3 => Unit::Millisecond, 4 => Unit::Second, 5 => Unit::Minute, _ => Unit::Hour });
+            }
+            let since = a[k + 2] != 0;
+            let r = if name == "instant_until" {
+                let (Ok(x), Ok(y)) = (temporal_rs::time::EpochNanoseconds::try_from(a[0]), temporal_rs::time::EpochNanoseconds::try_from(a[1])) else { return "1 2".into() };
+                let (x, y) = (Instant::from(x), Instant::from(y));
+                if since { x.since(&y, st) } else { x.until(&y, st) }
+            } else {
+                let mk = |v: &[i128]| temporal_rs::PlainTime::try_new(v[0] as u8, v[1] as u8, v[2] as u8, v[3] as u16, v[4] as u16, v[5] as u16);
+                let (Ok(x), Ok(y)) = (mk(&a[0..6]), mk(&a[6..12])) else { return "1 2".into() };
+                if since { x.since(&y, st) } else { x.until(&y, st) }
+            };
+            match r {
+                Ok(d) => format!("0 {} {} {} {} {} {}", d.hours().as_inner() as i128, d.minutes().as_inner() as i128, d.seconds().as_inner() as i128,
+                                 d.milliseconds().as_inner() as i128, d.microseconds().as_inner() as i128, d.nanoseconds().as_inner() as i128),
+                Err(e) => format!("1 {}", e.kind() as u8),
+            }
+        }
         "negate_mode" => format!("{}", vharness::common::mode_idx(mode(a[0]).negate())),
         "unsigned_mode" => {
             use temporal_rs::options::UnsignedRoundingMode as U;
